@@ -50,7 +50,7 @@ type expect14 struct {
 	near     bool // some deadline within the tolerance of the decision point
 }
 
-const tol14 = 400
+const tol14 = 120 // ms; the extractor's clock is the real clock shifted by Advance, a case runs in a few ms
 
 func (m *model14) evaluate(exp *expect14) {
 	for k := range m.tr {
@@ -150,14 +150,14 @@ func genC14(t *rapid.T) c14Case {
 		for tries := 0; tries < 8; tries++ {
 			ok := true
 			for _, tr := range m.tr {
-				if tr.open && (abs64(m.now+d-tr.created-60000) < 1000 || abs64(m.now+d-tr.progress-5000) < 1000) {
+				if tr.open && (abs64(m.now+d-tr.created-60000) < 200 || abs64(m.now+d-tr.progress-5000) < 200) {
 					ok = false
 				}
 			}
 			if ok {
 				return d
 			}
-			d += 1100
+			d += 230
 		}
 		return d
 	}
@@ -194,11 +194,11 @@ func genC14(t *rapid.T) c14Case {
 			add(op14{Kind: "advance", Ms: safeAdvance(int64(rapid.IntRange(10, 3500).Draw(t, "short")))})
 			add(op14{Kind: "trigger"})
 		case 3, 4: // idle beyond 5 s, then inbound data that is not a packet
-			d := rapid.SampledFrom([]int64{6000, 6100, 9000, 15000, 4000, 20000}).Draw(t, "idle")
+			d := rapid.SampledFrom([]int64{6000, 6100, 9000, 15000, 4000, 20000, 5250, 5500, 5900, 4750, 4500, 5999}).Draw(t, "idle")
 			add(op14{Kind: "advance", Ms: safeAdvance(d)})
 			add(op14{Kind: rapid.SampledFrom([]string{"trigger", "trigger", "half"}).Draw(t, "trig")})
 		default: // jump towards / across the 60 s limit
-			d := rapid.SampledFrom([]int64{30000, 45000, 58000, 62000, 70000}).Draw(t, "long")
+			d := rapid.SampledFrom([]int64{30000, 45000, 58000, 62000, 70000, 59700, 60300, 60900}).Draw(t, "long")
 			add(op14{Kind: "advance", Ms: safeAdvance(d)})
 			add(op14{Kind: "trigger"})
 		}
@@ -380,8 +380,8 @@ func TestC14(t *testing.T) {
 	kit.Run(t, kit.Prop[c14Case]{ID: "C14", Part: "TestC14", Gen: genC14, Check: checkC14})
 }
 
-// TestC14Enum: every non-empty subset of missing packets 2..N for N <= 8 (thorough: 10): idle 6 s, trigger,
-// exact list; resupply; complete.
+// TestC14Enum: every non-empty subset of missing packets 2..N for N <= 8 (thorough: 10): idle just over 5 s, trigger,
+// exact list; resupply; complete. The idle time walks 5.3 .. 6.0 s.
 func TestC14Enum(t *testing.T) {
 	kit.Enum(t, "C14", "TestC14Enum", "TestC14", func(col *kit.Collector) (any, error) {
 		maxN := 8
@@ -408,7 +408,7 @@ func TestC14Enum(t *testing.T) {
 						c.Ops = append(c.Ops, op14{Kind: "pkt", No: uint16(i)})
 					}
 				}
-				c.Ops = append(c.Ops, op14{Kind: "advance", Ms: 6000}, op14{Kind: "trigger"}, op14{Kind: "advance", Ms: 2000}, op14{Kind: "trigger"})
+				c.Ops = append(c.Ops, op14{Kind: "advance", Ms: int64(5300 + 100*(idx%8))}, op14{Kind: "trigger"}, op14{Kind: "advance", Ms: 2000}, op14{Kind: "trigger"})
 				for i := 2; i <= n; i++ {
 					if mask>>(i-2)&1 == 1 {
 						c.Ops = append(c.Ops, op14{Kind: "pkt", No: uint16(i)})
